@@ -166,7 +166,7 @@ FOMustBeNew(pre, op) == \/ op.op \in {"extract", "remove", "reorder", "add"}
 \* forms of passing names the docstrings document (the others are observed, not gated)
 FOGating(op) ==
     CASE op.op \in {"extract", "remove", "reorder"} -> op.form = "list"
-      [] op.op = "add"          -> op.form \in {"descr", "dtype"}
+      [] op.op = "add"          -> op.form \in {"descr", "dtype", "descr_np"}
       [] op.op = "combine"      -> op.form = "list"
       [] op.op = "copy"         -> TRUE
       [] op.op = "copy_by_name" -> op.form \in {"list", "scalar"}
